@@ -1,10 +1,14 @@
 """C02 -- emu-mps reproduces the Pulser Hamiltonian dynamics: the data-flow clauses (which drive,
 which coupling, which initial amplitude reaches which MPS site)."""
-from contracts import mps_dataflow as D, mps_dataflow_sites as S
+from contracts import frame_scan, mps_dataflow as D, mps_dataflow_sites as S
 
 ID = "C02"
 LEVEL = "proof"
 REPLAY = "replay/c02.py"
+
+
+def extra_checks(tier, seed, repo_root):
+    return frame_scan.run("C02", repo_root, attrs=("qubit_permutation", "pulser_data"))
 
 
 def build(reg):
@@ -16,5 +20,31 @@ def build(reg):
                  f"{M}:MPSBackendImpl._get_interaction_matrix[no filter]",
                  f"{M}:MPSBackendImpl.update_H", f"{M}:MPSBackendImpl.update_H_no_noise",
                  f"{M}:MPSBackendImpl.init_initial_state[given state]"],
-        not_decided=[], trusted=[], bounded=[],
+        explanation=(
+            "Ghost convention: MPS site k holds register atom perm[k].  Proved for all N, T, permutations: "
+            "after __init__ the stored drives satisfy omega_site[t,k] == omega[t,perm[k]] (same for delta, phi); "
+            "update_H / update_H_no_noise hand hamiltonian.update_H exactly row `_timestep_index` of the stored "
+            "drives, hence omega[step, perm[k]] for site k; the matrix given to make_H is J(mid)[perm[i],perm[j]]; "
+            "a user-supplied initial state is re-keyed so that site k carries the character of atom perm[k] with "
+            "the same amplitude."),
+        not_decided=[
+            "numerical agreement with exact evolution / Pulser's reference emulator (precision, truncation, "
+            "Krylov error): not a data-flow clause",
+            "the TDVP sweep schedule (pair(k,k+1,dt/2), single(k+1,-dt/2), ...) and evolve_pair/evolve_single "
+            "operators: not reached in this work package",
+            "make_H / hamiltonian.update_H themselves (MPO == dense Hamiltonian is C05, bounded)",
+            "the dark-qubit case of the drives is under C25 (init_dark_qubits)",
+        ],
+        trusted=[
+            "between __init__/init_dark_qubits and update_H nobody rewrites self.omega/delta/phi or "
+            "qubit_permutation (frame scan for qubit_permutation; omega/delta/phi are written only in __init__ and "
+            "init_dark_qubits -- read off the source, both under contract)",
+            "pulser State._to_abstract_repr()/from_state_amplitudes: a dict {'eigenstates', 'amplitudes': {string: "
+            "amplitude}} and its inverse; one arbitrary entry is followed",
+            "contracts of the permutation helpers and of minimize_bandwidth (verified under C32)",
+        ],
+        bounded=["initial-state amplitudes: ONE arbitrary entry of the amplitudes dict (entries are mapped "
+                 "independently by the dict comprehension); string length and N symbolic",
+                 "[drives,N=4] repeats the drive clause at N = 4, T = 2 only to obtain a concrete counter-model "
+                 "on a broken tree"],
     )
